@@ -49,6 +49,14 @@ def is_helper(t, owner, stop=()):
         return False
     if owner is not None and t["q"] == owner.get("q") and len(t["params"]) == len(owner.get("params", [])):
         return False
+    if t.get("cls") and t.get("access") == "public":
+        # the public interface of a class declared in include/ is the vocabulary rules are written in
+        # (get_kind(), get(i), empty(), add_symbol ...): never looked into.  Helpers a refactoring extracts are private /
+        # protected methods, members of file-local classes, static functions or lambdas.
+        from . import facts as _facts
+        rec = _facts.CURRENT.records.get(t["cls"]) if _facts.CURRENT is not None else None
+        if rec is None or "/include/" in (rec.get("file") or ""):
+            return False
     if owner is None:
         return True
     return f == owner.get("file") or (f.endswith((".h", ".hpp")) and "/include/" not in f)
@@ -91,7 +99,7 @@ def _subst_keep_returns(n, env, recv):
     return {a: _subst_keep_returns(v, env, recv) if isinstance(v, (dict, list)) else v for a, v in n.items()}
 
 
-def expand(node, F, owner=None, stop=(), maxdepth=3, lambdas=None, resolve=None):
+def expand(node, F, owner=None, stop=(), maxdepth=3, lambdas=None, resolve=None, accept=None):
     """See module docstring.  resolve(call) -> function facts or None overrides the choice of the callee (dynamic
     dispatch from a known most-derived class)."""
     if lambdas is None:
@@ -125,7 +133,8 @@ def expand(node, F, owner=None, stop=(), maxdepth=3, lambdas=None, resolve=None)
                     "t": out.get("t")}
         fq = out.get("fn")
         if fq and out.get("ck") != "op" and fq not in stack:
-            cands = [t for t in F.fns(fq) if len(t["params"]) == len(args) and is_helper(t, owner, stop)]
+            cands = [t for t in F.fns(fq) if len(t["params"]) == len(args) and is_helper(t, owner, stop) and
+                     (accept is None or accept(t))]
             if resolve is not None:
                 r = resolve(out)
                 if r is not None and r.get("body") is not None and len(r["params"]) == len(args) and \
@@ -146,12 +155,12 @@ def expand(node, F, owner=None, stop=(), maxdepth=3, lambdas=None, resolve=None)
     return rec(copy.deepcopy(node), 0, ((owner or {}).get("q"),))
 
 
-def expanded_fn(fn, F, stop=(), maxdepth=3, resolve=None):
+def expanded_fn(fn, F, stop=(), maxdepth=3, resolve=None, accept=None):
     """Function facts with an expanded body."""
     if fn.get("body") is None:
         return fn
     new = dict(fn)
-    new["body"] = expand(fn["body"], F, owner=fn, stop=stop, maxdepth=maxdepth, resolve=resolve)
+    new["body"] = expand(fn["body"], F, owner=fn, stop=stop, maxdepth=maxdepth, resolve=resolve, accept=accept)
     return new
 
 
@@ -553,3 +562,452 @@ def sites_with_conditions(body, pred):
                     expr(v, conds)
     stmts(body.get("s", []) if isinstance(body, dict) and body.get("k") == "block" else [body], [])
     return out
+
+
+# ------------------------------------------------------------------------------------------ path bits
+def flag_locals(body):
+    """Locals used as flags: bool or pointer variables initialised with a literal -> {id: initial value}
+    (values: True / False / "null" / "nonnull")."""
+    out = {}
+    for d in walk(body):
+        if d.get("k") == "decl":
+            for v in d.get("vars", []):
+                val = _flag_value(v.get("init"))
+                if val is not None and v.get("id") is not None:
+                    out[v["id"]] = val
+    return out
+
+
+def _flag_value(e):
+    e = strip(e) if e is not None else None
+    if not isinstance(e, dict):
+        return None
+    if e.get("k") == "bool":
+        return bool(e["v"])
+    if e.get("k") == "null" or (e.get("k") == "int" and e.get("v") == 0 and "*" in (e.get("t") or "")):
+        return "null"
+    if e.get("k") == "str":
+        return "nonnull"
+    return None
+
+
+def path_states(body, mark, cond_mark=None, after=None, probe=None, probes=None, flags=None):
+    """Structured may-analysis over all paths of a function body with a small set of monotone facts ("bits").
+
+    mark(node)                 -> iterable of bits gained by evaluating a non-structural statement / an expression
+    cond_mark(cond, truth)     -> iterable of bits gained by *entering* the branch where `cond` has that truth value
+    after(stmt)                -> iterable of bits gained after a compound statement (loop, switch, try, inlined) has
+                                  been passed, for facts about the statement as a whole
+
+    Conditions are not interpreted: both branches of every `if` are followed, a loop body runs zero or one time.
+    Returns (fallthrough, exits): fallthrough = set of frozenset(bits) reaching the end of the body; exits = list of
+    (statement, frozenset(bits)) for every return / cret / throw reached."""
+    exits = []
+    cm = cond_mark or (lambda c, t: ())
+    af = after or (lambda s: ())
+    flags = flags if flags is not None else {}
+
+    def gain(states, bits):
+        bits = frozenset(bits)
+        return {s | bits for s in states} if bits else states
+
+    def set_flag(states, fid, val):
+        out = set()
+        for s_ in states:
+            s_ = frozenset(b for b in s_ if not (isinstance(b, tuple) and b[0] == "=" and b[1] == fid))
+            out.add(s_ | ({("=", fid, val)} if val is not None else frozenset()))
+        return out
+
+    def flag_of(state, fid):
+        for b in state:
+            if isinstance(b, tuple) and b[0] == "=" and b[1] == fid:
+                return b[2]
+        return None
+
+    def decide(c, state):
+        """truth value of condition c under the flag values of `state`, or None"""
+        c = strip(c)
+        if not isinstance(c, dict):
+            return None
+        if c.get("k") == "un" and c.get("op") == "!":
+            v = decide(c["e"], state)
+            return None if v is None else not v
+        if c.get("k") == "ref" and c.get("id") in flags:
+            v = flag_of(state, c["id"])
+            if v in (True, False):
+                return v
+            if v in ("null", "nonnull"):
+                return v == "nonnull"
+            return None
+        if c.get("k") == "bin" and c.get("op") in ("==", "!="):
+            for a, b in ((c["lhs"], c["rhs"]), (c["rhs"], c["lhs"])):
+                a, bv = strip(a), _flag_value(b)
+                if isinstance(a, dict) and a.get("k") == "ref" and a.get("id") in flags and bv is not None:
+                    v = flag_of(state, a["id"])
+                    if v is None:
+                        return None
+                    eq = (v == bv)
+                    return eq if c["op"] == "==" else not eq
+        if c.get("k") == "bin" and c.get("op") in ("&&", "||"):
+            a, b = decide(c["lhs"], state), decide(c["rhs"], state)
+            if c["op"] == "&&":
+                return False if (a is False or b is False) else (True if a and b else None)
+            return True if (a is True or b is True) else (False if a is False and b is False else None)
+        return None
+
+    def outer_inlined(e):
+        """inlined helper calls that occur inside an expression (not inside a lambda body / another inlined node)"""
+        out = []
+
+        def rec(n):
+            if isinstance(n, list):
+                for x in n:
+                    rec(x)
+            elif isinstance(n, dict):
+                if n.get("k") == "inlined":
+                    out.append(n)
+                    return
+                if n.get("k") == "lambda":
+                    return
+                for a, v in n.items():
+                    if isinstance(v, (dict, list)) and a != "call":
+                        rec(v)
+        rec(e)
+        return out
+
+    def ev(e, states):
+        if e is None:
+            return states
+        if isinstance(e, (dict, list)):
+            for n in outer_inlined(e):
+                states = flow(n, states)        # what the helper does on its own paths (loops, early answers)
+        if probe is not None and probes is not None:
+            for n in walk(e):
+                if probe(n):
+                    probes.extend((n, st) for st in states)
+        states = gain(states, mark(e))
+        if flags:
+            # assignments to flag locals (statement level or nested)
+            for n in walk(e):
+                if n.get("k") == "decl":
+                    for v in n.get("vars", []):
+                        if v.get("id") in flags:
+                            states = set_flag(states, v["id"], _flag_value(v.get("init")))
+                elif n.get("k") == "bin" and n.get("op") in ("=", "|=", "&=") and strip(n["lhs"]).get("k") == "ref" and \
+                        strip(n["lhs"]).get("id") in flags:
+                    states = set_flag(states, strip(n["lhs"])["id"], _flag_value(n["rhs"]) if n["op"] == "=" else None)
+        return states
+
+    def branch(states, c, truth):
+        """states that can take the branch `c == truth`"""
+        if not flags:
+            return states
+        return {st for st in states if decide(c, st) in (None, truth)}
+
+    def flow(s, states):
+        if s is None or not states:
+            return states
+        if isinstance(s, list):
+            for x in s:
+                states = flow(x, states)
+            return states
+        k = s.get("k")
+        if k == "block":
+            for x in s.get("s", []):
+                states = flow(x, states)
+                if not states:
+                    break
+            return states
+        if k == "if":
+            st = states
+            if isinstance(s.get("init"), dict):
+                st = ev(s["init"], st)
+            st = ev(s["c"], st)
+            a = flow(s.get("then"), gain(branch(st, s["c"], True), cm(s["c"], True)))
+            b = flow(s.get("else"), gain(branch(st, s["c"], False), cm(s["c"], False))) if s.get("else") is not None else \
+                gain(branch(st, s["c"], False), cm(s["c"], False))
+            return a | b
+        if k in ("for", "while", "rangefor", "do"):
+            st = states
+            for key in ("init", "c", "range"):
+                if isinstance(s.get(key), dict):
+                    st = ev(s[key], st)
+            breaks.append(set())
+            b = flow(s.get("body"), st)
+            b = b | breaks.pop()
+            for key in ("inc", "step"):
+                if isinstance(s.get(key), dict):
+                    b = ev(s[key], b)
+            return gain(st | b, af(s))
+        if k == "switch":
+            st = ev(s.get("c"), states)
+            breaks.append(set())
+            cur, has_default = set(), False
+            body = s.get("body") or {}
+            for x in (body.get("s", []) if body.get("k") == "block" else [body]):
+                y = x
+                while isinstance(y, dict) and y.get("k") in ("case", "default"):
+                    cur = cur | st              # every label is an entry point
+                    has_default = has_default or y["k"] == "default"
+                    y = y.get("s")
+                cur = flow(y, cur)
+            out = cur | breaks.pop() | (set() if has_default else st)
+            return gain(out, af(s))
+        if k in ("case", "default", "attributed", "label"):
+            return flow(s.get("s"), states)
+        if k == "inlined":
+            # the callee's returns end the callee only
+            sub_f, sub_e = path_states(s.get("body") or {}, mark, cond_mark, after, probe, probes, flags)
+            out = set()
+            for base in states:
+                for t in list(sub_f) + [e for _, e in sub_e]:
+                    out.add(base | t)
+            return gain(out or states, af(s))
+        if k in ("return", "cret"):
+            e0 = strip(s.get("e")) if s.get("e") is not None else None
+            if isinstance(e0, dict) and e0.get("k") == "inlined":
+                # `return helper(...)`: the helper's own exits are this function's exits (with their statements, so
+                # that a rule can tell `return true` inside the helper from `return false`)
+                sub_f, sub_e = path_states(e0.get("body") or {}, mark, cond_mark, after, probe, probes, flags)
+                for base in states:
+                    for st_, t in sub_e:
+                        exits.append((st_, base | t))
+                    for t in sub_f:
+                        exits.append((s, base | t))
+                return set()
+            st = ev(s.get("e"), states) if s.get("e") is not None else states
+            exits.extend((s, x) for x in st)
+            return set()
+        if k == "throw":
+            exits.extend((s, x) for x in states)
+            return set()
+        if k == "try":
+            b = flow(s.get("body"), states)
+            hs = set()
+            for h in s.get("handlers", []) or []:
+                hs |= flow(h.get("body"), states)
+            return gain(b | hs, af(s))
+        if k in ("break", "continue"):
+            if breaks:
+                breaks[-1] |= states
+                return set()
+            return states
+        return ev(s, states)
+    breaks = []
+    out = flow(body, {frozenset()})
+    return out, exits
+
+
+# ------------------------------------------------------------------------------------------ normal form
+def _blk(ss):
+    return {"k": "block", "s": ss}
+
+
+def _structure_returns(ss):
+    """Statement list of an inlined callee: turn `if (C) { A; cret; } rest...` into `if (C) { A } else { rest... }`
+    (recursively), and drop a trailing `cret;`.  Returns None if a `cret` remains somewhere else (inside a loop, in
+    the middle of a block): such a callee is left as an `inlined` node."""
+    def flat(xs):
+        r = []
+        for x in xs:
+            if isinstance(x, dict) and x.get("k") == "block" and not any(
+                    isinstance(y, dict) and y.get("k") == "decl" for y in x.get("s", [])):
+                r += flat(x.get("s", []))
+            elif isinstance(x, dict):
+                r.append(x)
+        return r
+    ss = flat(ss)
+    out = []
+    for i, s in enumerate(ss):
+        if not isinstance(s, dict):
+            continue
+        k = s.get("k")
+        if k == "cret" and s.get("e") is None:
+            if i != len(ss) - 1 and any(isinstance(x, dict) for x in ss[i + 1:]):
+                return None if False else out      # statements after an unconditional return are dead
+            return out
+        if k == "if":
+            th = s.get("then")
+            th_ss = flat(th.get("s", []) if isinstance(th, dict) and th.get("k") == "block" else [th])
+            el = s.get("else")
+            el_ss = flat(el.get("s", []) if isinstance(el, dict) and el.get("k") == "block" else [el]) if el is not None else None
+
+            def ends_ret(b):
+                return bool(b) and isinstance(b[-1], dict) and b[-1].get("k") == "cret" and b[-1].get("e") is None
+            rest = ss[i + 1:]
+            if ends_ret(th_ss) and not (el_ss and ends_ret(el_ss)):
+                a = _structure_returns(th_ss[:-1])
+                b = _structure_returns((el_ss or []) + rest)
+                if a is None or b is None:
+                    return None
+                out.append(dict(s, then=_blk(a), **{"else": _blk(b)}))
+                return out
+            if el_ss and ends_ret(el_ss) and not ends_ret(th_ss):
+                a = _structure_returns(th_ss + rest)
+                b = _structure_returns(el_ss[:-1])
+                if a is None or b is None:
+                    return None
+                out.append(dict(s, then=_blk(a), **{"else": _blk(b)}))
+                return out
+            a = _structure_returns(th_ss)
+            b = _structure_returns(el_ss) if el_ss is not None else None
+            if a is None or (el_ss is not None and b is None):
+                return None
+            n = dict(s, then=_blk(a))
+            if el_ss is not None:
+                n["else"] = _blk(b)
+            out.append(n)
+            continue
+        if any(x.get("k") == "cret" for x in walk(s) if x is not s) and k != "inlined":
+            return None
+        out.append(s)
+    return out
+
+
+def _predicate_form(inl):
+    """An inlined bool helper of the form  [effects0;] if (C) { [effA;] cret B1; } [effB;] cret B2;  (B literals, B1 != B2)
+    -> (condition equivalent to `returns true`, effects when true, effects when false), else None."""
+    body = inl.get("body") or {}
+    ss = [s for s in (body.get("s", []) if body.get("k") == "block" else [body]) if isinstance(s, dict)]
+    pre = []
+    binds = {}
+    while ss and ss[0].get("k") not in ("if", "cret"):
+        d = ss[0]
+        # `const int node_type = getNodeType();` - a value binding is substituted into the condition
+        if d.get("k") == "decl" and all(v.get("init") is not None and v.get("id") is not None and
+                                        not v.get("bindings") for v in d.get("vars", [])):
+            for v in d["vars"]:
+                binds[v["id"]] = v["init"]
+        else:
+            pre.append(d)
+        ss = ss[1:]
+    if pre:
+        return None                      # effects before the decision: keep the helper opaque
+    if binds:
+        def sub(n):
+            if isinstance(n, list):
+                return [sub(x) for x in n]
+            if not isinstance(n, dict):
+                return n
+            if n.get("k") == "ref" and n.get("id") in binds:
+                return sub(binds[n["id"]])
+            return {a: sub(v) if isinstance(v, (dict, list)) else v for a, v in n.items()}
+        ss = sub(ss)
+
+    def lit(s):
+        e = strip(s.get("e")) if isinstance(s, dict) and s.get("k") == "cret" and s.get("e") is not None else None
+        return bool(e["v"]) if isinstance(e, dict) and e.get("k") == "bool" else None
+    if len(ss) == 1 and ss[0].get("k") == "cret" and ss[0].get("e") is not None:
+        return (ss[0]["e"], [], [])      # `return C;`
+    if not ss or ss[0].get("k") != "if" or ss[0].get("else") is not None:
+        return None
+    th = ss[0]["then"]
+    th_ss = [s for s in (th.get("s", []) if th.get("k") == "block" else [th]) if isinstance(s, dict)]
+    if not th_ss or lit(th_ss[-1]) is None or not ss[1:] or lit(ss[-1]) is None:
+        return None
+    eff_then, eff_rest = th_ss[:-1], ss[1:-1]
+    if any(x.get("k") in ("cret", "return") for s in eff_then + eff_rest for x in walk(s)):
+        return None
+    b1, b2 = lit(th_ss[-1]), lit(ss[-1])
+    if b1 == b2:
+        return None
+    c = ss[0]["c"]
+    if b1:
+        return (c, eff_then, eff_rest)
+    return ({"k": "un", "op": "!", "e": c, "l": c.get("l")}, eff_rest, eff_then)
+
+
+def _fold_cond(c):
+    """condition with inlined predicate helpers folded -> (condition, effects-if-true, effects-if-false) where the
+    effects are the helper's own statements on that outcome (only for a condition that is the helper call itself or
+    its negation; inside && / || the effects are dropped and only the condition is folded)."""
+    c0 = strip(c)
+    if isinstance(c0, dict) and c0.get("k") == "inlined":
+        pf = _predicate_form(c0)
+        if pf is not None:
+            cc, et, ef = pf
+            cc2, _, _ = _fold_cond(cc)
+            return cc2, et, ef
+        return c, [], []
+    if isinstance(c0, dict) and c0.get("k") == "un" and c0.get("op") == "!":
+        cc, et, ef = _fold_cond(c0["e"])
+        return dict(c0, e=cc), ef, et
+    if isinstance(c0, dict) and c0.get("k") == "bin" and c0.get("op") in ("&&", "||"):
+        a, _, _ = _fold_cond(c0["lhs"])
+        b, _, _ = _fold_cond(c0["rhs"])
+        return dict(c0, lhs=a, rhs=b), [], []
+    return c, [], []
+
+
+def _ptr_to_member(n):
+    """`obj->*(&C::m)` / `obj.*(&C::m)` with a literal member pointer -> ordinary member access"""
+    if isinstance(n, list):
+        return [_ptr_to_member(x) for x in n]
+    if not isinstance(n, dict):
+        return n
+    n = {a: _ptr_to_member(v) if isinstance(v, (dict, list)) else v for a, v in n.items()}
+    if n.get("k") == "bin" and n.get("op") in ("->*", ".*"):
+        r = strip(n["rhs"])
+        if isinstance(r, dict) and r.get("k") == "un" and r.get("op") == "&" and strip(r["e"]).get("k") == "ref" and \
+                "::" in (strip(r["e"]).get("q") or ""):
+            q = strip(r["e"])["q"]
+            return {"k": "member", "name": q.split("::")[-1], "of": q.rsplit("::", 1)[0], "t": n.get("t"),
+                    "arrow": n["op"] == "->*", "base": n["lhs"], "l": n.get("l")}
+    return n
+
+
+def normalize_fn(fn, F, stop=(), maxdepth=3, resolve=None, accept=None):
+    """Function facts in a normal form in which extracted helpers have been put back:
+      - helper / lambda calls are expanded (see expand);
+      - a void helper called as a statement becomes a block, its early `return;`s turned into if/else nesting;
+      - a bool helper used as an `if` condition (`if (!inside_edge()) return;` with inside_edge reporting the error) is
+        replaced by the condition it computes, and what the helper does on each outcome is moved into the branches;
+      - `p->*(&C::m)` with a literal member pointer becomes `p->m`.
+    Rules written against the direct form of a callback then also read the refactored form."""
+    x = expanded_fn(fn, F, stop=stop, maxdepth=maxdepth, resolve=resolve, accept=accept)
+    if x.get("body") is None:
+        return x
+
+    def stmt(s):
+        if isinstance(s, list):
+            out = []
+            for y in s:
+                r = stmt(y)
+                out += r if isinstance(r, list) else [r]
+            return out
+        if not isinstance(s, dict):
+            return s
+        k = s.get("k")
+        if k == "inlined":
+            b = s.get("body") or {}
+            ss = _structure_returns(stmt(b.get("s", []) if b.get("k") == "block" else [b]))
+            if ss is not None and not any(y.get("k") == "cret" for z in ss for y in walk(z)):
+                return dict(_blk(ss), inlined_from=s.get("name"), l=s.get("l"))
+            return s
+        if k == "block":
+            return dict(s, s=stmt(s.get("s", [])))
+        if k == "if":
+            c, et, ef = _fold_cond(s["c"])
+            th = stmt(s.get("then")) if s.get("then") is not None else None
+            el = stmt(s.get("else")) if s.get("else") is not None else None
+            if et:
+                th = _blk(stmt(copy.deepcopy(et)) + ([th] if th is not None else []))
+            if ef:
+                el = _blk(stmt(copy.deepcopy(ef)) + ([el] if el is not None else []))
+            n = dict(s, c=c, then=th if th is not None else _blk([]))
+            if el is not None:
+                n["else"] = el
+            elif "else" in n:
+                del n["else"]
+            return n
+        if k in ("for", "while", "do", "rangefor", "switch", "try"):
+            n = dict(s)
+            if s.get("body") is not None:
+                n["body"] = stmt(s["body"])
+            return n
+        if k in ("case", "default", "attributed", "label"):
+            return dict(s, s=stmt(s.get("s")))
+        return s
+    new = dict(x)
+    new["body"] = _ptr_to_member(stmt(x["body"]))
+    return new
